@@ -80,6 +80,8 @@ pub enum Ev {
     OpStart { c: usize, i: usize },
     OpEnd { c: usize, i: usize, res: Res },
     Note(String),
+    /// status of actor `a` as sampled after a gate step (logged on change only)
+    Status { a: usize, st: u8 },
 }
 
 #[derive(Clone, Debug, Serialize)]
@@ -257,6 +259,9 @@ pub enum Op {
     Link { child: u8, sup: u8 },
     Unlink { child: u8, sup: u8 },
     NotifySup { child: u8, kind: SupKind },
+    /// `who` starts monitoring `target` (monitors feature)
+    Monitor { who: u8, target: u8 },
+    Unmonitor { who: u8, target: u8 },
     Join { who: u8, group: u8 },
     Leave { who: u8, group: u8 },
     WhereIs(u8),
@@ -1052,6 +1057,16 @@ pub async fn exec_op(w: &Arc<World>, c: usize, i: usize, op: &Op) -> Res {
             ch.get_cell().notify_supervisor(evt);
             Res::Unit
         }
+        Op::Monitor { who, target } => {
+            let (m, t) = (cell!(who), cell!(target));
+            m.get_cell().monitor(t.get_cell());
+            Res::Unit
+        }
+        Op::Unmonitor { who, target } => {
+            let (m, t) = (cell!(who), cell!(target));
+            m.get_cell().unmonitor(t.get_cell());
+            Res::Unit
+        }
         Op::Join { who, group } => {
             ractor::pg::join(w.group(*group), vec![cell!(who).get_cell()]);
             Res::Unit
@@ -1186,18 +1201,50 @@ pub async fn quiesce(env: &mut Env, w: &Arc<World>, kill: bool, max_steps: u64) 
 /// Let the system go quiet without any further input: run every runnable task, let virtual
 /// time pass, repeat until nothing happens any more.
 pub async fn settle(env: &mut Env) {
+    settle_with(env, |_, _| {}).await
+}
+
+pub async fn settle_with(env: &mut Env, mut after_step: impl FnMut(u64, u64)) {
     let gate = env.gate.clone();
     for _ in 0..200 {
         let before = (trace_len(), gate.step());
-        if drive(&env.gate, &mut env.sched, 20_000, || gate.runnable().is_empty(), |_, _| {}).await == DriveEnd::Budget {
+        if drive(&env.gate, &mut env.sched, 20_000, || gate.runnable().is_empty(), &mut after_step).await == DriveEnd::Budget {
             return;
         }
         tokio::time::sleep(Duration::from_millis(50)).await;
-        if drive(&env.gate, &mut env.sched, 20_000, || gate.runnable().is_empty(), |_, _| {}).await == DriveEnd::Budget {
+        if drive(&env.gate, &mut env.sched, 20_000, || gate.runnable().is_empty(), &mut after_step).await == DriveEnd::Budget {
             return;
         }
         if (trace_len(), gate.step()) == before {
             break;
+        }
+    }
+}
+
+/// Samples every known cell's status (call after each step); logs changes, reports regressions
+#[derive(Default)]
+pub struct StatusSampler {
+    last: HashMap<usize, u8>,
+    pub regression: Option<String>,
+}
+impl StatusSampler {
+    pub fn sample(&mut self, w: &World) {
+        for (a, c) in w.all_cells() {
+            let st = c.get_status() as u8;
+            match self.last.get(&a) {
+                Some(prev) if *prev == st => {}
+                Some(prev) if *prev > st => {
+                    if self.regression.is_none() {
+                        self.regression = Some(format!("actor {a}: status went from {prev} back to {st}"));
+                    }
+                    self.last.insert(a, st);
+                    log(Ev::Status { a, st });
+                }
+                _ => {
+                    self.last.insert(a, st);
+                    log(Ev::Status { a, st });
+                }
+            }
         }
     }
 }
